@@ -40,8 +40,13 @@ PlainContainers ==
 NilPtr == [t |-> "null", r |-> "nilptr"]
 EQNilPtr == {NilPtr, [t |-> "arr", e |-> <<NilPtr>>, r |-> "any"], [t |-> "arr", e |-> <<NilPtr>>, r |-> "arrayany"],
              [t |-> "obj", m |-> [a |-> NilPtr], r |-> "any"], [t |-> "arr", e |-> <<NilPtr, [t |-> "null", r |-> "nil"]>>, r |-> "any"]}
+\* null behind two levels of indirection, in pairs of ONE Go type: (**int)(nil) / &(*int)(nil), (*any)(nil) / &any(nil)
+NullDeep == {[t |-> "null", r |-> x] : x \in {"nilpp", "ptrnilp", "nilpany", "ptrnilany"}}
+EQNullDeep == NullDeep
+              \cup {[t |-> "arr", e |-> <<x, y>>, r |-> rp] : x \in NullDeep, y \in NullDeep, rp \in {"any", "typed"}}
+              \cup {[t |-> "obj", m |-> [a |-> x], r |-> rp] : x \in NullDeep, rp \in {"any", "typed"}}
 EQPool(z) ==
-  EQNilPtr \cup
+  EQNilPtr \cup EQNullDeep \cup
   UNION {WithWraps(RepsOf(v, NR1, AR, OR), IF K >= 2 THEN Wraps ELSE {<<>>, <<"ptr">>}) : v \in PlainScalars}
   \cup UNION {WithWraps(RepsOf(v, NR2, AR, OR), {<<>>, <<"ptr">>}) : v \in PlainContainers}
 
@@ -98,11 +103,15 @@ RVPlain ==
    \* integers beyond int64 (exact in uint64 and float64) and at its edge
    Arr(<<Str("b"), Str("a"), Str("ab")>>), Arr(<<Num(R_3), Num(R_1), Num(R_256)>>),      \* (not in any sorted order)
    Num(R_2p63), Arr(<<Num(R_2p63), Num(R_2p63)>>), Arr(<<Num(R_i64max), Num(R_i64max)>>),
-   Arr(<<Obj([a |-> Num(R_2p63)]), Obj([a |-> Num(R_2p63)])>>), Arr(<<Num(R_i64min), Num(R_i64min)>>)}
+   Arr(<<Obj([a |-> Num(R_2p63)]), Obj([a |-> Num(R_2p63)])>>), Arr(<<Num(R_i64min), Num(R_i64min)>>),
+   \* the last integer float32 holds exactly before its grid widens to 2, and 1/2 (bounds next to them below)
+   Num(R_2p24), Num(R_h), Arr(<<Num(R_2p24), Num(R_h)>>), Obj([a |-> Num(R_2p24)])}
 RVReps(z) ==
   {PtrKids(x) : x \in UNION {RepsOf(v, {"float64", "int"}, {"any", "typed"}, {"any", "typed"}) : v \in {y \in RVPlain : y.t \in {"arr", "obj"}}}}
   \cup UNION {WithWraps(RepsOf(v, IF K >= 2 THEN NR1 ELSE {"float64", "int", "jsonNumberE", "jsonNumber", "uint64", "uint8"}, AR, OR),
                    IF v.t \in {"arr", "obj"} THEN {<<>>, <<"ptr">>} ELSE Wraps) : v \in RVPlain}
+  \* single precision throughout (float32, []float32, map[string]float32 ...): only values float32 holds exactly
+  \cup UNION {WithWraps(RepsOf(v, {"float32"}, AR, OR), {<<>>, <<"ptr">>}) : v \in RVPlain}
 IntS == [type |-> "integer"]
 RVSchemas ==
   <<[type |-> "integer"], [type |-> "number"], [type |-> "string"], [type |-> "array"], [type |-> "object"], [type |-> "null"],
@@ -120,6 +129,9 @@ RVSchemas ==
     [unevaluatedProperties |-> FalseS, properties |-> [a |-> TrueS]],
     [items |-> [properties |-> [a |-> [const |-> Num(R_1)]]]], [items |-> [items |-> [type |-> "integer"]]],
     [not |-> [type |-> "number"]], [anyOf |-> <<[type |-> "string"], [minimum |-> R_2]>>],
+    \* bounds that are doubles but not singles, one grid step from an instance that is both
+    [exclusiveMaximum |-> R_2p24p1], [minimum |-> R_2p24p1], [minimum |-> R_hEps], [exclusiveMinimum |-> R_h, maximum |-> R_hEps],
+    [items |-> [exclusiveMaximum |-> R_2p24p1]], [properties |-> [a |-> [not |-> [minimum |-> R_2p24p1]]]],
     \* multipleOf beyond the domain of L0 (verdicts "x"): the replay takes the canonical decoding's verdict as the oracle
     [multipleOf |-> R_3], [multipleOf |-> R_2], [multipleOf |-> R_1],
     \* one subschema object applied twice to the same place of the instance, the first time inside an applicator
